@@ -352,3 +352,32 @@ def wire_fields_from(fcp: "ref:FcpV2", fs: "seq[ref:StructField]", v: "dyn", i: 
 def pad_of(b: "arr", s: "seq[int]") -> "seq[int]":
     """the padding bits after s in the last byte of its packing b"""
     return seq_extract(bits_of_bytes(b), len(s), 8 * arr_len(b) - len(s))
+
+
+# ---------------------------------------------------------------- C16: truncated inputs
+@pure
+def is_prefix(g: "seq[int]", f: "seq[int]") -> "bool":
+    """g is an initial segment of f"""
+    return len(g) <= len(f) and forall(0, len(g), lambda i: g[i] == f[i])
+
+
+@pure
+def trunc_pre(fcp: "ref:FcpV2", t: "ref:Type", g: "seq[int]", f: "seq[int]", p: "int", v: "dyn") -> "bool":
+    """the buffer g is a prefix of an input f that holds the image of a conforming value v at p"""
+    return is_prefix(g, f) and conforms(fcp, t, v) and starts(fcp, t, f, p, v)
+
+
+@pure
+def short_in(fcp: "ref:FcpV2", t: "ref:Type", g: "seq[int]", f: "seq[int]", p: "int", v: "dyn") -> "bool":
+    """... and g ends before that image does: a decoder reading g at p must raise"""
+    return trunc_pre(fcp, t, g, f, p, v) and len(g) < p + len(wire(fcp, t, v))
+
+
+def rt_hyp(fcp: "ref:FcpV2", name: "str", s: "seq[int]", p: "int", v: "dyn") -> "bool":
+    """the hypothesis of the struct decoder's read-back clause, as one (deliberately non-inlined) predicate"""
+    return conforms_struct(fcp, name, v) and starts_struct(fcp, name, s, p, v)
+
+
+def trunc_hyp(fcp: "ref:FcpV2", name: "str", g: "seq[int]", f: "seq[int]", p: "int", v: "dyn") -> "bool":
+    """g is a prefix of an input f that holds the image of a conforming struct value v at p"""
+    return is_prefix(g, f) and conforms_struct(fcp, name, v) and starts_struct(fcp, name, f, p, v)
